@@ -51,7 +51,7 @@ def run(ctx):
     if not mok:
         problems.append(("T", "model extraction/driver build failed: " + mexe[-1200:]))
     d = L.work("C12")
-    n = 6000 if ctx.tier == "quick" else 30000
+    n = 6000 if ctx.tier == "quick" else 50000
     extra = ["-flags", "rand:2" if ctx.tier == "quick" else "rand:4"]
     only = None
     if ctx.replay:
